@@ -1,6 +1,6 @@
 (* C08 - every inbound QoS>0 PUBLISH and PUBREL is acknowledged exactly once, with its
    identifier, in arrival order; nothing is written for QoS 0 or any other packet. *)
-From Poster Require Import Model.Sim Proofs.ClientP Proofs.QuotaP Proofs.ResumeP Proofs.WireP Proofs.FramingMainP Proofs.SimInvP Proofs.SettleP Proofs.RefineP Proofs.TraceP.
+From Poster Require Import Model.Sim Proofs.ClientP Proofs.QuotaP Proofs.ResumeP Proofs.WireP Proofs.FramingMainP Proofs.SimInvP Proofs.SettleP Proofs.RefineP Proofs.TraceP Proofs.AckFailP.
 
 (* what the property says must be written for one inbound packet (written from the statement) *)
 Definition C08_ack_for (p : rxpkt) : bytes :=
@@ -74,3 +74,12 @@ Example C08_end_to_end_nonvacuous :
   cph s = CRunning /\ wbudget s = None /\ lenN (pkts (trace (settle_fuel s) s)) = 4 /\
   wire_ev (settle s) = [64; 2; 0; 7; 80; 2; 0; 9; 112; 2; 0; 9].
 Proof. vm_compute. auto. Qed.
+
+(* with a failing writer (Proofs/AckFailP.v): an acknowledgement the transport does not accept in full - fewer than its four
+   bytes - ends run() with SocketClosed, at each of the three acknowledgement sites (PUBACK, PUBREC, PUBCOMP) alike; run()
+   never goes on serving with an acknowledgement owed and unwritten *)
+Theorem C08_ack_write_failure_ends_run : forall (s : sys) (p : rxpkt) (b : N), wbudget s = Some b -> b < 4 ->
+  (rk p = KPublish /\ r_qos p <> 0) \/ rk p = KPubrel ->
+  snd (handle_packet s p) = Exit RunSocketClosed.
+Proof. exact ack_write_failure_exits. Qed.
+Print Assumptions C08_ack_write_failure_ends_run.
